@@ -104,6 +104,74 @@ func mmErrKind(err error) string {
 	return "other:" + err.Error()
 }
 
+// (same check as in routing_test.go; the stand-ins are injected one file at a time)
+// nodeWFViolations checks, on every node of the router's current tree, the well-formedness invariant that the
+// contracts of lookupByPath / lookupByDomain ASSUME for every node in the heap (verif_contracts_walk.go, nodeWF).
+func nodeWFViolations(f *Router) []string {
+	var out []string
+	cnt := func(key string, i int) int { return strings.Count(key[:i], "{") }
+	seen := map[*node]bool{}
+	var visit func(n *node, isRoot bool)
+	visit = func(n *node, isRoot bool) {
+		if n == nil || seen[n] {
+			return
+		}
+		seen[n] = true
+		bad := func(format string, a ...interface{}) {
+			out = append(out, fmt.Sprintf("node %q: ", n.key)+fmt.Sprintf(format, a...))
+		}
+		if len(n.childKeys) != len(n.children) {
+			bad("len(childKeys)=%d len(children)=%d", len(n.childKeys), len(n.children))
+		}
+		if n.paramChildIndex < -1 || n.paramChildIndex >= len(n.children) || n.wildcardChildIndex < -1 || n.wildcardChildIndex >= len(n.children) {
+			bad("child indexes out of range")
+		}
+		if !isRoot && len(n.params) != cnt(n.key, len(n.key)) {
+			bad("len(params)=%d, %d wildcards in key", len(n.params), cnt(n.key, len(n.key)))
+		}
+		for k, p := range n.params {
+			if p.end == -1 {
+				if k != len(n.params)-1 {
+					bad("param %d has end -1 but is not the last", k)
+				}
+			} else if !(0 < p.end && p.end <= len(n.key) && cnt(n.key, p.end) == k+1) {
+				bad("param %d end %d", k, p.end)
+			}
+		}
+		if !isRoot && len(n.children) == 0 && n.route == nil {
+			bad("no children and no route")
+		}
+		for p := 0; p < len(n.key) && !isRoot; p++ {
+			if n.key[p] == '*' {
+				if !(p+1 < len(n.key) && n.key[p+1] == '{') {
+					bad("'*' at %d not followed by '{'", p)
+					continue
+				}
+				k := cnt(n.key, p)
+				if k < len(n.params) {
+					if n.params[k].end >= 0 && n.inode == nil {
+						bad("infix catch-all without inode")
+					}
+					if n.params[k].end == -1 && n.route == nil {
+						bad("node ending in a catch-all is not a leaf")
+					}
+				}
+			}
+		}
+		for _, c := range n.children {
+			if c == nil {
+				bad("nil child")
+			}
+			visit(c, false)
+		}
+		visit(n.inode, false)
+	}
+	for _, r := range f.getRoot().root {
+		visit(r, true)
+	}
+	return out
+}
+
 func TestFoxvcStandinMapModel(t *testing.T) {
 	st := &mmStats{Exhaustive: true}
 	seen := map[string]bool{}
@@ -228,6 +296,12 @@ func TestFoxvcStandinMapModel(t *testing.T) {
 						report("delete-result seq=%v step=%d txn=%v: Delete returned a route that is not the registered one", seq[:i+1], i, inTxn)
 					}
 					delete(model, k)
+				}
+			}
+			// the tree invariant assumed by the walk contracts holds after every operation (committed tree)
+			if !inTxn {
+				for _, v := range nodeWFViolations(f) {
+					report("node-wf seq=%v step=%d: %s", seq[:i+1], i, v)
 				}
 			}
 			// observers agree with the model after every call (so a failed call changed nothing)
